@@ -647,6 +647,20 @@ func c10exec(c *h.Ctx, cs *h.Case) {
 			}
 			outcome = append(outcome, cs.Impl[len(cs.Impl)-1])
 			continue
+		case "srvclosedur":
+			if cl == nil || len(tk) != 1 || closedOnce || dbBusy {
+				bad()
+				continue
+			}
+			cs.Impl = append(cs.Impl, c10closeDuring(cs, cl))
+			outcome = append(outcome, cs.Impl[len(cs.Impl)-1])
+			if o := cs.Impl[len(cs.Impl)-1]; o == "hang" || o == "harness-error" {
+				return
+			}
+			closedOnce = true
+			atomic.StoreInt32(&c10closedAt, 1)
+			bound = 0
+			continue
 		case "srvlate":
 			if cl == nil || len(tk) != 1 || closedOnce || dbBusy {
 				bad()
@@ -933,6 +947,16 @@ func c10exec(c *h.Ctx, cs *h.Case) {
 					cs.Fail("still-listening", "the router still listens after Server.Close")
 				}
 			}
+			outcome = append(outcome, cs.Impl[len(cs.Impl)-1])
+			continue
+		}
+		if tk[0] == "pausegate" {
+			// a Pause / Unpause history of a router of its own (c10pause.go), then Stop
+			if len(tk) != 2 || ctl != nil || cl != nil {
+				bad()
+				continue
+			}
+			cs.Impl = append(cs.Impl, c10pausegate(cs, tk[1]))
 			outcome = append(outcome, cs.Impl[len(cs.Impl)-1])
 			continue
 		}
@@ -1622,7 +1646,9 @@ func c10gen(c *h.Ctx, yield func(*h.Case)) {
 		}
 		c.Count("class=" + class)
 		f0 := strings.Fields(ops[0])
-		c.Count("transport=" + f0[len(f0)-1])
+		if f0[0] != "pausegate" {
+			c.Count("transport=" + f0[len(f0)-1])
+		}
 		if strings.HasPrefix(class, "server:") {
 			// what the server holds on to (ports, websocket goroutine, database) is read at the start
 			// and after every Close
@@ -1862,6 +1888,51 @@ func c10gen(c *h.Ctx, yield func(*h.Case)) {
 		emit("server:database-use-after-close", ops)
 	}
 	// listener faults before close: Accept errors of the operating system, then connections, then Stop
+	// the pause gate (round 7): Pause / Unpause histories over three receive loops, then Stop.  The corpus case is the
+	// window of the repaired defect (/repo 9d417f5): a loop woken by the first Unpause runs again only after a
+	// second Pause was made and another loop has read its channel
+	// a second Close during the first (round 7, seeded C10r7-B): when ANY Close returns the server is closed
+	for _, tr := range transports {
+		emit("server:corpus-second-close-during-first", []string{"srv " + tr, "srvclosedur"})
+		emit("server:second-close-during-first", []string{"srv " + tr, "srvstart", "srvclosedur", "srvclose"})
+	}
+	emit("corpus-pause-gate-second-pause", []string{"pausegate P.a.hb.U.P.rb"})
+	emit("corpus-pause-gate-second-pause", []string{"pausegate P.a.b.hc.U.P.rc"})
+	emit("corpus-pause-gate", []string{"pausegate a.P.a.b.U.c.P.c"})
+	for i, n := 0, c.Pick(10, 120); i < n; i++ {
+		// a, b, c: 0 = in Receive, 1 = held after Receive, 2 = at the gate / gone
+		st := map[string]int{"a": 0, "b": 0, "c": 0}
+		paused := false
+		var toks []string
+		for j, m := 0, 3+r.Intn(8); j < m; j++ {
+			x := []string{"a", "b", "c"}[r.Intn(3)]
+			switch k := r.Intn(10); {
+			case k < 2:
+				toks = append(toks, "P")
+				paused = true
+			case k < 4:
+				toks = append(toks, "U")
+				paused = false
+			case k < 6 && st[x] == 0:
+				toks = append(toks, "h"+x)
+				st[x] = 1
+			case k < 8 && st[x] == 1:
+				toks = append(toks, "r"+x)
+				st[x] = 0
+				if paused {
+					st[x] = 2
+				}
+			case st[x] == 0:
+				toks = append(toks, x)
+				if paused {
+					st[x] = 2
+				}
+			}
+		}
+		if len(toks) > 0 {
+			emit("pause-gate", []string{"pausegate " + strings.Join(toks, ".")})
+		}
+	}
 	emit("corpus-accept-error-before-stop", []string{"init tcp", "lnfault 1 1"})
 	for i := 0; i < c.Pick(10, 80); i++ {
 		emit("listener-faults:tcp", []string{"init tcp", fmt.Sprintf("lnfault %d %d", 1+r.Intn(4), r.Intn(4))})
